@@ -114,3 +114,60 @@ Proof.
     apply Z.mul_le_mono_nonneg_r; [apply Z.mul_nonneg_nonneg; lia | exact Hd]. }
   lia.
 Qed.
+
+(* ---------------- factor 1: the whole vote of a cell at a node is decided by the cell alone ---------------- *)
+Definition sorted_draw (n : nat) (S : list nat) : Prop :=
+  exists S0, subset_ok (1, 1)%Z n S0 = true /\ Permutation S S0 /\ Sorted lt S.
+
+Lemma opt_all_const {A} (w : A) k : opt_all (repeat (Some w) k) = Some (repeat w k).
+Proof. induction k as [|k IH]; cbn; [reflexivity|]. rewrite IH. reflexivity. Qed.
+
+Lemma map_const_repeat {A B} (f : A -> B) (l : list A) (y : B) :
+  (forall x, In x l -> f x = y) -> map f l = repeat y (length l).
+Proof.
+  induction l as [|x t IH]; intros H; cbn; [reflexivity|].
+  rewrite (H x (or_introl eq_refl)), IH by (intros z Hz; apply H; right; exact Hz). reflexivity.
+Qed.
+
+(* every iteration of the bootstrap picks the same leaf: the one nearest on ALL markers *)
+Theorem factor_one_tally q refs n subsets :
+  Forall (sorted_draw n) subsets ->
+  tally q refs subsets =
+    match nearest q refs (seq 0 n) with
+    | Some w => Some (repeat w (length subsets))
+    | None => match subsets with [] => Some [] | _ => None end
+    end.
+Proof.
+  intros HF. unfold tally.
+  assert (E : map (nearest q refs) subsets = repeat (nearest q refs (seq 0 n)) (length subsets)).
+  { apply map_const_repeat. intros S HS. rewrite Forall_forall in HF.
+    destruct (HF S HS) as (S0 & Hok & Hp & Hs). rewrite (full_subset n S0 S Hok Hp Hs). reflexivity. }
+  rewrite E. destruct (nearest q refs (seq 0 n)) as [w|].
+  - apply opt_all_const.
+  - destruct subsets as [|S t]; reflexivity.
+Qed.
+
+Lemma votes_repeat (owners : list Z) w k c :
+  votes_for owners (repeat w k) c = if (nth w owners (-1)%Z =? c)%Z then k else 0.
+Proof.
+  unfold votes_for, count. induction k as [|k IH]; cbn [repeat filter].
+  - destruct (nth w owners (-1)%Z =? c)%Z; reflexivity.
+  - destruct (nth w owners (-1)%Z =? c)%Z eqn:E; cbn [length]; rewrite IH; reflexivity.
+Qed.
+
+(* ... so the child owning that leaf gets every vote and no other child gets any:
+   at factor 1 the bootstrapping probability is 1 and there is no runner-up, whatever the
+   generator, the iteration count, and the other cells of the chunk *)
+Theorem factor_one_unanimous q refs (owners : list Z) n subsets w winners :
+  Forall (sorted_draw n) subsets ->
+  nearest q refs (seq 0 n) = Some w ->
+  tally q refs subsets = Some winners ->
+  winners = repeat w (length subsets) /\
+  votes_for owners winners (nth w owners (-1)%Z) = length subsets /\
+  (forall c, c <> nth w owners (-1)%Z -> votes_for owners winners c = 0).
+Proof.
+  intros HF Hn Ht. rewrite (factor_one_tally q refs n subsets HF), Hn in Ht. injection Ht as <-.
+  split; [reflexivity|]. split.
+  - rewrite votes_repeat, Z.eqb_refl. reflexivity.
+  - intros c Hc. rewrite votes_repeat. destruct (Z.eqb_spec (nth w owners (-1)%Z) c) as [E | _]; [congruence | reflexivity].
+Qed.
